@@ -11,6 +11,8 @@ use std::fmt::Write as _;
 use std::rc::Rc;
 
 mod cli_driver;
+#[cfg(all(feature = "help", feature = "autocomplete", feature = "history"))]
+mod derive_driver;
 
 pub struct Rng(pub u64);
 impl Rng {
@@ -923,6 +925,8 @@ fn main() {
         #[cfg(feature = "autocomplete")]
         "autocomplete" => ac_driver::run(&mut r, iters),
         "writer" => writer_driver::run(&mut r, iters),
+        #[cfg(all(feature = "help", feature = "autocomplete", feature = "history"))]
+        "derive_help" => derive_driver::run(&mut r, iters),
         "cli" => cli_driver::run(&mut r, iters, ""),
         d if d.starts_with("cli:") => cli_driver::run(&mut r, iters, &d[4..]),
         _ => {
